@@ -1,16 +1,17 @@
 import Log4rsModel.EnvExpand.LemmasScan
 /-
-C19: the model of the proposed single-pass patch (`expandFixed`, byte offsets and partial slices as
-in the patched Rust) equals the specification on every path, for every `alnum`, every environment.
+C19: the code (`expand`: single pass, byte offsets and partial slices as in the Rust) equals the
+specification on every path, for every `alnum`, every environment; every slice it takes succeeds
+(the `copied` cursor stays on character boundaries); untouched paths.
 -/
 namespace Log4rs.EnvExpand
 open Log4rs Log4rs.Str
 
-/-- the patched loop from state `st` over the remaining match offsets, then the final push -/
-def runFixed (alnum : Char → Bool) (env : Env) (path : Text) (st : FixState) (ms : List Nat) :
+/-- the loop from state `st` over the remaining match offsets, then the final push -/
+def run (alnum : Char → Bool) (env : Env) (path : Text) (st : ScanState) (ms : List Nat) :
     Outcome Unit Text :=
-  match ms.foldl (fun (acc : Outcome Unit FixState) m => match acc with
-      | .ok st => stepFixed alnum env path st m
+  match ms.foldl (fun (acc : Outcome Unit ScanState) m => match acc with
+      | .ok st => step alnum env path st m
       | other => other) (.ok st) with
   | .ok st =>
     match sliceFrom st.copied path with
@@ -19,14 +20,14 @@ def runFixed (alnum : Char → Bool) (env : Env) (path : Text) (st : FixState) (
   | .err e => .err e
   | .panic w => .panic w
 
-theorem expandFixed_eq_run (alnum : Char → Bool) (env : Env) (path : Text) :
-    expandFixed alnum env path =
-      runFixed alnum env path { out := [], copied := 0 } (matchIndices envPrefix path) := rfl
+theorem expand_eq_run (alnum : Char → Bool) (env : Env) (path : Text) :
+    expand alnum env path =
+      run alnum env path { out := [], copied := 0 } (matchIndices envPrefix path) := rfl
 
-theorem runFixed_cons {alnum : Char → Bool} {env : Env} {path : Text} {st st' : FixState} {m : Nat}
-    (ms : List Nat) (h : stepFixed alnum env path st m = .ok st') :
-    runFixed alnum env path st (m :: ms) = runFixed alnum env path st' ms := by
-  simp [runFixed, List.foldl_cons, h]
+theorem run_cons {alnum : Char → Bool} {env : Env} {path : Text} {st st' : ScanState} {m : Nat}
+    (ms : List Nat) (h : step alnum env path st m = .ok st') :
+    run alnum env path st (m :: ms) = run alnum env path st' ms := by
+  simp [run, List.foldl_cons, h]
 
 /-- offsets of the occurrences in `s`, when `s` is preceded by `p` -/
 def occsShift (p s : Text) : List Nat := (occs s).map (fun o => utf8Len (p ++ o.1))
@@ -42,13 +43,13 @@ theorem occsShift_cons (p : Text) (c : Char) (rest : Text) :
     simp
 
 /-- an occurrence inside an already replaced reference is skipped -/
-theorem stepFixed_skip {alnum : Char → Bool} {env : Env} {path : Text} {st : FixState} {m : Nat}
-    (h : m < st.copied) : stepFixed alnum env path st m = .ok st := by
-  simp [stepFixed, h]
+theorem step_skip {alnum : Char → Bool} {env : Env} {path : Text} {st : ScanState} {m : Nat}
+    (h : m < st.copied) : step alnum env path st m = .ok st := by
+  simp [step, h]
 
-/-- at an occurrence not before `copied`, every slice of the patched loop body succeeds -/
-theorem stepFixed_at (alnum : Char → Bool) (env : Env) (cp pend tail out : Text) :
-    stepFixed alnum env ((cp ++ pend) ++ (envPrefix ++ tail)) { out := out, copied := utf8Len cp }
+/-- at an occurrence not before `copied`, every slice of the loop body succeeds -/
+theorem step_at (alnum : Char → Bool) (env : Env) (cp pend tail out : Text) :
+    step alnum env ((cp ++ pend) ++ (envPrefix ++ tail)) { out := out, copied := utf8Len cp }
         (utf8Len (cp ++ pend)) =
       .ok (match scanRef alnum tail with
         | none => { out := out, copied := utf8Len cp }
@@ -63,7 +64,7 @@ theorem stepFixed_at (alnum : Char → Bool) (env : Env) (cp pend tail out : Tex
     have := splitAtByte_append ((cp ++ pend) ++ envPrefix) tail
     rw [utf8Len_append _ envPrefix, utf8Len_envPrefix] at this
     simpa [ENV_PREFIX_LEN] using this
-  unfold stepFixed
+  unfold step
   simp only [hguard, if_false, hsplit]
   cases hs : scanRef alnum tail with
   | none => rfl
@@ -98,13 +99,13 @@ theorem substAt_of_not_occ (alnum : Char → Bool) (env : Env) (s : Text)
     (h : isPrefix envPrefix s = false) : substAt alnum env s = none := by
   simp [substAt, h]
 
-theorem runFixed_spec (alnum : Char → Bool) (env : Env) (path : Text) :
+theorem run_spec (alnum : Char → Bool) (env : Env) (path : Text) :
     ∀ (s p : Text), path = p ++ s →
       (∀ (cp pend out : Text), p = cp ++ pend →
-        runFixed alnum env path { out := out, copied := utf8Len cp } (occsShift p s) =
+        run alnum env path { out := out, copied := utf8Len cp } (occsShift p s) =
           .ok (out ++ pend ++ specGo alnum env 0 s)) ∧
       (∀ (j : Nat) (out : Text), 1 ≤ j → j ≤ s.length →
-        runFixed alnum env path { out := out, copied := utf8Len p + utf8Len (s.take j) } (occsShift p s) =
+        run alnum env path { out := out, copied := utf8Len p + utf8Len (s.take j) } (occsShift p s) =
           .ok (out ++ specGo alnum env j s)) := by
   intro s
   induction s with
@@ -113,7 +114,7 @@ theorem runFixed_spec (alnum : Char → Bool) (env : Env) (path : Text) :
     refine ⟨?_, ?_⟩
     · intro cp pend out hcp
       have : path = cp ++ pend := by rw [hp, hcp]; simp
-      simp [occsShift, occs, runFixed, this, sliceFrom_append, specGo]
+      simp [occsShift, occs, run, this, sliceFrom_append, specGo]
     · intro j out h1 h2
       simp at h2; omega
   | cons c rest ih =>
@@ -127,9 +128,9 @@ theorem runFixed_spec (alnum : Char → Bool) (env : Env) (path : Text) :
       · obtain ⟨t, ht⟩ := (isPrefix_iff _ _).1 hocc
         simp only [hocc, if_true, List.singleton_append]
         have hpath : path = (cp ++ pend) ++ (envPrefix ++ t) := by rw [hp, hcp, ht]
-        have hstep := stepFixed_at alnum env cp pend t out
+        have hstep := step_at alnum env cp pend t out
         rw [← hpath, ← hcp] at hstep
-        rw [runFixed_cons _ hstep]
+        rw [run_cons _ hstep]
         have hsub := substAt_of_occ alnum env t
         rw [← ht] at hsub
         have hc : c = '$' ∧ rest = 'E' :: 'N' :: 'V' :: '{' :: t := by
@@ -176,15 +177,15 @@ theorem runFixed_spec (alnum : Char → Bool) (env : Env) (path : Text) :
       have hlt : utf8Len p < utf8Len p + utf8Len ((c :: rest).take (j' + 1)) := by
         have := Char.utf8Size_pos c
         simp only [List.take_succ_cons, utf8Len]; omega
-      have hdrop : runFixed alnum env path
+      have hdrop : run alnum env path
             { out := out, copied := utf8Len p + utf8Len ((c :: rest).take (j' + 1)) }
             ((if isPrefix envPrefix (c :: rest) then [utf8Len p] else []) ++ occsShift (p ++ [c]) rest) =
-          runFixed alnum env path
+          run alnum env path
             { out := out, copied := utf8Len p + utf8Len ((c :: rest).take (j' + 1)) }
             (occsShift (p ++ [c]) rest) := by
         split
         · simp only [List.singleton_append]
-          exact runFixed_cons _ (stepFixed_skip hlt)
+          exact run_cons _ (step_skip hlt)
         · rfl
       rw [hdrop]
       have hcop : utf8Len p + utf8Len ((c :: rest).take (j' + 1)) =
@@ -201,11 +202,114 @@ theorem runFixed_spec (alnum : Char → Bool) (env : Env) (path : Text) :
         rw [ihB (j'' + 1) out (by omega) (by simp at h2; omega)]
         simp [specGo]
 
-/-- the patched algorithm is the single pass -/
-theorem expandFixed_eq_spec (alnum : Char → Bool) (env : Env) (path : Text) :
-    expandFixed alnum env path = .ok (specExpand alnum env path) := by
-  rw [expandFixed_eq_run, matchIndices_occs]
-  have := (runFixed_spec alnum env path path [] (by simp)).1 [] [] [] (by simp)
+/-- the code is the single pass -/
+theorem expand_eq_spec (alnum : Char → Bool) (env : Env) (path : Text) :
+    expand alnum env path = .ok (specExpand alnum env path) := by
+  rw [expand_eq_run, matchIndices_occs]
+  have := (run_spec alnum env path path [] (by simp)).1 [] [] [] (by simp)
   simpa [occsShift, utf8Len, specExpand] using this
+
+/-! ### the `copied` cursor -/
+
+theorem utf8Len_eq_zero {a : Text} (h : utf8Len a = 0) : a = [] := by
+  cases a with
+  | nil => rfl
+  | cons c a =>
+    have := Char.utf8Size_pos c
+    simp only [utf8Len] at h; omega
+
+/-- of two prefixes of the same text, the one with fewer bytes is a prefix of the other -/
+theorem prefix_of_utf8Len_le {a b x y : Text} (h : a ++ x = b ++ y) (hle : utf8Len a ≤ utf8Len b) :
+    ∃ pend, b = a ++ pend := by
+  rcases List.append_eq_append_iff.1 h with ⟨a', hb, _⟩ | ⟨c', ha, _⟩
+  · exact ⟨a', hb⟩
+  · rw [ha, utf8Len_append] at hle
+    have : c' = [] := utf8Len_eq_zero (by omega)
+    subst this
+    exact ⟨[], by simpa using ha.symm⟩
+
+/-- the loop from a given state over a list of match offsets -/
+def scanFrom (alnum : Char → Bool) (env : Env) (path : Text) (st : ScanState) (ms : List Nat) :
+    Outcome Unit ScanState :=
+  ms.foldl (fun (acc : Outcome Unit ScanState) m => match acc with
+    | .ok st => step alnum env path st m
+    | other => other) (.ok st)
+
+theorem scan_eq_scanFrom (alnum : Char → Bool) (env : Env) (path : Text) :
+    scan alnum env path = scanFrom alnum env path { out := [], copied := 0 } (matchIndices envPrefix path) :=
+  rfl
+
+/-- one iteration at an occurrence keeps `copied` on a character boundary, and takes no panic branch -/
+theorem step_inv (alnum : Char → Bool) (env : Env) (p tail : Text) (st : ScanState)
+    (hst : IsCharBoundary (p ++ (envPrefix ++ tail)) st.copied) :
+    ∃ st', step alnum env (p ++ (envPrefix ++ tail)) st (utf8Len p) = .ok st' ∧
+      IsCharBoundary (p ++ (envPrefix ++ tail)) st'.copied := by
+  by_cases hlt : utf8Len p < st.copied
+  · exact ⟨st, step_skip hlt, hst⟩
+  · obtain ⟨cp, x, hpx, hcp⟩ := hst
+    obtain ⟨pend, rfl⟩ := prefix_of_utf8Len_le hpx.symm (by omega)
+    obtain ⟨out, copied⟩ := st
+    simp only at hcp
+    subst hcp
+    refine ⟨_, step_at alnum env cp pend tail out, ?_⟩
+    cases hs : scanRef alnum tail with
+    | none => exact ⟨cp, x, hpx, rfl⟩
+    | some name =>
+      cases hl : lookup env name with
+      | none => simp only [hl]; exact ⟨cp, x, hpx, rfl⟩
+      | some value =>
+        simp only [hl]
+        obtain ⟨_, r, hr⟩ := scanRef_some hs
+        refine ⟨(cp ++ pend) ++ refLit name, r, ?_, by rw [utf8Len_append]⟩
+        rw [hr]; simp [refLit]
+
+theorem scanFrom_ok (alnum : Char → Bool) (env : Env) (path : Text) :
+    ∀ (ms : List Nat) (st : ScanState),
+      (∀ m ∈ ms, ∃ p tail, path = p ++ (envPrefix ++ tail) ∧ m = utf8Len p) →
+      IsCharBoundary path st.copied →
+      ∃ st', scanFrom alnum env path st ms = .ok st' ∧ IsCharBoundary path st'.copied := by
+  intro ms
+  induction ms with
+  | nil => intro st _ hst; exact ⟨st, rfl, hst⟩
+  | cons m ms ih =>
+    intro st hms hst
+    obtain ⟨p, tail, hpath, rfl⟩ := hms m (by simp)
+    have := step_inv alnum env p tail st (hpath ▸ hst)
+    rw [← hpath] at this
+    obtain ⟨st1, h1, h2⟩ := this
+    obtain ⟨st', h3, h4⟩ := ih st1 (fun m hm => hms m (by simp [hm])) h2
+    refine ⟨st', ?_, h4⟩
+    simp only [scanFrom, List.foldl_cons, h1] at h3 ⊢
+    exact h3
+
+theorem matchIndices_mem {path : Text} {m : Nat} (h : m ∈ matchIndices envPrefix path) :
+    ∃ p tail, path = p ++ (envPrefix ++ tail) ∧ m = utf8Len p := by
+  rw [matchIndices_occs, List.mem_map] at h
+  obtain ⟨o, ho, rfl⟩ := h
+  exact ⟨o.1, o.2, occs_sound ho, rfl⟩
+
+/-! ### paths without a well-formed reference to a set variable -/
+
+theorem specGo_untouched (alnum : Char → Bool) (env : Env) (path : Text)
+    (h : ∀ a t n, path = a ++ (envPrefix ++ t) → refAt alnum t = some n → lookup env n = none) :
+    ∀ s a, path = a ++ s → specGo alnum env 0 s = s := by
+  intro s
+  induction s with
+  | nil => intro a _; rfl
+  | cons c rest ih =>
+    intro a hp
+    have hnone : substAt alnum env (c :: rest) = none := by
+      by_cases hocc : isPrefix envPrefix (c :: rest) = true
+      · obtain ⟨t, ht⟩ := (isPrefix_iff _ _).1 hocc
+        rw [ht, substAt_of_occ]
+        cases hs : scanRef alnum t with
+        | none => rfl
+        | some n =>
+          have := h a t n (by rw [hp, ht]) (by rw [← scanRef_eq_refAt]; exact hs)
+          simp [this]
+      · exact substAt_of_not_occ _ _ _ (by simpa using hocc)
+    rw [specGo]
+    simp only [hnone]
+    rw [ih (a ++ [c]) (by rw [hp]; simp)]
 
 end Log4rs.EnvExpand
